@@ -207,7 +207,12 @@ impl<W: 'static, R: 'static, T: 'static> XGenerator<W, R, T> {
             Self::Filter(gen, func) => either_h({
                 let inner: BIter<_, _, _> = Box::new(to_native!(gen, Self)._iter(ns, rt.clone()));
                 let f = to_primitive!(func, Function);
-                inner.filter_map(move |i| {
+                // every examined element draws on the search budget: a predicate that stops matching must not
+                // keep the adaptor looping inside one step of its consumer
+                inner.zip(rt.limits.search_iter()).filter_map(move |(i, budget)| {
+                    if let Err(violation) = budget {
+                        return Some(Err(violation));
+                    }
                     let Ok(value) = i else { return Some(i); };
                     let guard =
                         match ns.eval_func_with_values(f, vec![value.clone()], rt.clone(), false) {
@@ -247,9 +252,14 @@ impl<W: 'static, R: 'static, T: 'static> XGenerator<W, R, T> {
                 let inner: BIter<_, _, _> = Box::new(to_native!(gen, Self)._iter(ns, rt.clone()));
                 let f = to_primitive!(func, Function);
                 let mut found_first = false;
+                let mut budget = rt.limits.search_iter();
                 inner.filter_map(move |i| {
                     if found_first {
                         return Some(i);
+                    }
+                    // the elements skipped while looking for the first match draw on the search budget
+                    if let Some(Err(violation)) = budget.next() {
+                        return Some(Err(violation));
                     }
                     let Ok(value) = i else { return Some(i); };
                     let guard =
